@@ -221,6 +221,7 @@ def process_violations(mod, env, viols, log=engine.log):
     records = []
     n_viol = n_known = 0
     infra = None
+    unrepro = []
     seen_sig = {}
     known_reported = set()
     ordered = sorted(viols, key=lambda v: (mod.signature(v), v.get('where', '')))
@@ -238,8 +239,13 @@ def process_violations(mod, env, viols, log=engine.log):
             infra = 'processing violation %s failed: %s' % (sig, traceback.format_exc())
             break
         if res['status'] == 'infra':
-            infra = res['msg']
-            break
+            # one candidate that does not repeat (a pipeline collapsing under a vanished reader is a race)
+            # must not keep the others from being examined; it still makes the run inconclusive if
+            # nothing reproducible is found
+            unrepro.append(res['msg'])
+            if len(unrepro) >= 12:
+                break
+            continue
         records.append(res)
         if res['status'] == 'known':
             n_known += 1
@@ -250,6 +256,8 @@ def process_violations(mod, env, viols, log=engine.log):
             n_viol += 1
             lines.append('VIOLATION property=%s replay=%s' % (mod.ID, res['path']))
             lines.append('  class=%s %s' % (v['class'], res['detail'][:500]))
+    if unrepro and infra is None:
+        infra = '%d candidate violation(s) did not repeat; first: %s' % (len(unrepro), unrepro[0])
     return lines, n_viol, n_known, infra, records, seen_sig
 
 
